@@ -725,7 +725,7 @@ func init() {
 		Run: ruleStopChannelsClosed,
 	})
 	register(&Rule{
-		Name: "validator-state-monotone", Props: []string{"C20", "C01", "C08"}, Engine: "AST", Floor: 5,
+		Name: "validator-state-monotone", Props: []string{"C20", "C01", "C08", "C13"}, Engine: "AST", Floor: 5,
 		Doc: "the per-stream request-validation flags (pseudo-header seen, regular field seen) are cleared only when the stream object is initialised: they accumulate over all header blocks of a stream, so that a pseudo-header in a trailer block, after regular fields of the first block, is still refused (RFC 7540 s8.1.2.1)",
 		Run: ruleValidatorStateMonotone,
 	})
@@ -858,6 +858,30 @@ func ruleValidatorStateMonotone(p *Prog, r *Out) {
 	}
 	if n < 5 {
 		r.bad("validation flags are maintained", "?", fmt.Sprintf("only %d stores to the request-validation flags found", n))
+	}
+	// counters that span the whole request only grow outside stream initialisation
+	for _, fld := range []string{"headerListSize", "recvBody"} {
+		grows := 0
+		for _, f := range p.Files {
+			pm := p.parentMaps()[f]
+			ast.Inspect(f, func(x ast.Node) bool {
+				as, ok := x.(*ast.AssignStmt)
+				if !ok || len(as.Lhs) != 1 || !p.isFieldSel(as.Lhs[0], "Stream", fld) {
+					return true
+				}
+				fn := enclosingFunc(pm, as)
+				if as.Tok == token.ADD_ASSIGN {
+					grows++
+					return true
+				}
+				r.check(fn == "NewStream", fn+" resets "+fld, p.pos(as.Pos()), "only += outside NewStream",
+					fmt.Sprintf("%s stores Stream.%s with `%s`: the counter spans every header block (and DATA frame) of the request, so starting it again at a trailer block gives the peer a fresh MaxHeaderListSize / MaxRequestBodySize budget while the fields and octets are still merged into the one request the handler gets", fn, fld, p.text(as)))
+				return true
+			})
+		}
+		if grows == 0 {
+			r.bad("request-wide counter "+fld+" is accumulated", "?", "no `+=` on Stream."+fld+" found")
+		}
 	}
 }
 
